@@ -867,7 +867,7 @@ class Interp:
         """returns (return value or None, env, members, reached) ; stop_at: predicate(block id, stmt index, stmt) -> True to stop"""
         fn = self.fn
         env = dict(env)
-        members = dict(members)
+        members = members.copy() if type(members) is not dict and hasattr(members, 'copy') else dict(members)
         b = fn.entry
         steps = 0
         while True:
